@@ -18,20 +18,21 @@ theorem swapIfLt_spec (d : Data) (i j a b : Int) (hi : a ≤ i ∧ i < b) (hj : 
   · simp only [h, decide_false]
     exact ⟨d, rfl, RP.refl _ _ _⟩
 
-theorem shellPass_spec (a : Int) (d : Data) (b i : Int) : 0 ≤ a → a + 6 ≤ i → b ≤ d.size →
-    ∃ d', shellPass d b i = .ok d' ∧ RP a b d d' := by
-  fun_induction shellPass d b i
+theorem shellPass_spec (cf : Cfg) (hg : 0 ≤ cf.shellGap) (a : Int) (d : Data) (b i : Int) :
+    0 ≤ a → a + cf.shellGap ≤ i → b ≤ d.size →
+    ∃ d', shellPass cf d b i = .ok d' ∧ RP a b d d' := by
+  fun_induction shellPass cf d b i
   all_goals intro h0 hi hb
   case case1 d i hib d1 hsw ih =>
-    obtain ⟨d1', hr, hrp⟩ := swapIfLt_spec d i (i-6) a b ⟨by omega, hib⟩ ⟨by omega, by omega⟩ h0 hb
+    obtain ⟨d1', hr, hrp⟩ := swapIfLt_spec d i (i-cf.shellGap) a b ⟨by omega, hib⟩ ⟨by omega, by omega⟩ h0 hb
     rw [hr] at hsw; cases hsw
     obtain ⟨d', hr', hrp'⟩ := ih h0 (by omega) (by rw [hrp.1]; exact hb)
     exact ⟨d', hr', hrp.trans hrp'⟩
   case case2 d i hib hsw =>
-    obtain ⟨d1', hr, hrp⟩ := swapIfLt_spec d i (i-6) a b ⟨by omega, hib⟩ ⟨by omega, by omega⟩ h0 hb
+    obtain ⟨d1', hr, hrp⟩ := swapIfLt_spec d i (i-cf.shellGap) a b ⟨by omega, hib⟩ ⟨by omega, by omega⟩ h0 hb
     rw [hr] at hsw; cases hsw
   case case3 d i hib hsw =>
-    obtain ⟨d1', hr, hrp⟩ := swapIfLt_spec d i (i-6) a b ⟨by omega, hib⟩ ⟨by omega, by omega⟩ h0 hb
+    obtain ⟨d1', hr, hrp⟩ := swapIfLt_spec d i (i-cf.shellGap) a b ⟨by omega, hib⟩ ⟨by omega, by omega⟩ h0 hb
     rw [hr] at hsw; cases hsw
   case case4 d i hib => exact ⟨d, rfl, RP.refl _ _ _⟩
 
@@ -68,19 +69,20 @@ theorem SortedOn.congr {a b : Int} {d d' : Data} (h : SortedOn a b d) (he : ∀ 
   intro p q hp hpq hq
   rw [he p hp (by omega), he q (by omega) hq]; exact h p q hp hpq hq
 
-theorem quickSort_spec (hpiv : ∀ (d : Data) (lo hi : Int), 0 ≤ lo → hi - lo > 12 → hi ≤ d.size → PivotOK d lo hi) :
+theorem quickSort_spec (cf : Cfg) (hk : cf.HeapOK) (hbo : cf.BuildOK) (hmin : cf.qsMin ≤ 1) (hg : 0 ≤ cf.shellGap)
+    (hpiv : ∀ (d : Data) (lo hi : Int), 0 ≤ lo → hi - lo > cf.qsSmall → hi ≤ d.size → PivotOK cf d lo hi) :
     ∀ (f : Nat) (d : Data) (a b : Int) (md : Nat), 0 ≤ a → a ≤ b → b ≤ d.size → md < f →
-      ∃ d', quickSort f d a b md = .ok d' ∧ RP a b d d' ∧ SortedOn a b d' := by
+      ∃ d', quickSort cf f d a b md = .ok d' ∧ RP a b d d' ∧ SortedOn a b d' := by
   intro f
   induction f with
   | zero => intro d a b md _ _ _ h; omega
   | succ f ih =>
     intro d a b md h0 hab hb hmd
     unfold quickSort
-    by_cases hbig : b - a > 12
+    by_cases hbig : b - a > cf.qsSmall
     · rw [if_pos hbig]
       cases md with
-      | zero => exact heapSort_spec d a b h0 hab hb
+      | zero => exact heapSort_spec cf hk hbo d a b h0 hab hb
       | succ md =>
         simp only
         obtain ⟨d1, mlo, mhi, hr1, hrp1, b1, b2, b3, c1, c2, c3⟩ := hpiv d a b h0 hbig hb
@@ -121,9 +123,9 @@ theorem quickSort_spec (hpiv : ∀ (d : Data) (lo hi : Int), 0 ≤ lo → hi - l
             exact ⟨k', h1, h2, by rw [hrp3.2.1 k (Or.inr (by omega)), h3]⟩
           · exact hso2.congr (fun k h1 h2 => hrp3.2.1 k (Or.inr (by omega)))
     · rw [if_neg hbig]
-      by_cases h1 : b - a > 1
+      by_cases h1 : b - a > cf.qsMin
       · rw [if_pos h1]
-        obtain ⟨d1, hr1, hrp1⟩ := shellPass_spec a d b (a+6) h0 (Int.le_refl _) hb
+        obtain ⟨d1, hr1, hrp1⟩ := shellPass_spec cf hg a d b (a+cf.shellGap) h0 (Int.le_refl _) hb
         rw [hr1]
         simp only
         obtain ⟨d2, hr2, hrp2, hso2⟩ := insertionSort_spec d1 a b h0 (by rw [hrp1.1]; exact hb)
@@ -132,7 +134,8 @@ theorem quickSort_spec (hpiv : ∀ (d : Data) (lo hi : Int), 0 ≤ lo → hi - l
         exact ⟨d, rfl, RP.refl _ _ _, fun p q h2 h3 h4 => by omega⟩
 
 
-theorem maxDepthLoop_total : ∀ (f i depth : Nat), i < f → ∃ r, maxDepthLoop f i depth = .ok r := by
+theorem maxDepthLoop_total (cf : Cfg) (hs : 1 ≤ cf.mdShift) :
+    ∀ (f i depth : Nat), i < f → ∃ r, maxDepthLoop cf f i depth = .ok r := by
   intro f
   induction f with
   | zero => intro i depth h; omega
@@ -140,12 +143,19 @@ theorem maxDepthLoop_total : ∀ (f i depth : Nat), i < f → ∃ r, maxDepthLoo
     intro i depth h
     unfold maxDepthLoop
     by_cases hi : i > 0
-    · rw [if_pos hi]; exact ih (i / 2) (depth + 1) (by omega)
+    · rw [if_pos hi]
+      apply ih
+      rw [Nat.shiftRight_eq_div_pow]
+      have h2 : 2 ≤ 2 ^ cf.mdShift := by
+        calc 2 = 2 ^ 1 := rfl
+          _ ≤ 2 ^ cf.mdShift := Nat.pow_le_pow_right (by omega) hs
+      have : i / 2 ^ cf.mdShift ≤ i / 2 := Nat.div_le_div_left h2 (by omega)
+      omega
     · rw [if_neg hi]; exact ⟨depth, rfl⟩
 
-theorem maxDepth_total (n : Nat) : ∃ md, maxDepth n = .ok md := by
+theorem maxDepth_total (cf : Cfg) (hs : 1 ≤ cf.mdShift) (n : Nat) : ∃ md, maxDepth cf n = .ok md := by
   unfold maxDepth
-  obtain ⟨r, hr⟩ := maxDepthLoop_total (n + 1) n 0 (by omega)
+  obtain ⟨r, hr⟩ := maxDepthLoop_total cf hs (n + 1) n 0 (by omega)
   rw [hr]; exact ⟨_, rfl⟩
 
 theorem vi_eq_getElem (d : Data) (k : Nat) (h : k < d.size) : vi d (k : Int) = d[k] := by
@@ -162,16 +172,18 @@ theorem sortedOn_toList {d : Data} (h : SortedOn 0 d.size d) : d.toList.Pairwise
   simpa using this
 
 /-- `Sort` sorts, given the partition contract of `doPivot` -/
-theorem sort_spec (hpiv : ∀ (d : Data) (lo hi : Int), 0 ≤ lo → hi - lo > 12 → hi ≤ d.size → PivotOK d lo hi)
-    (d : Data) : ∃ d', sort d = .ok d' ∧ d'.toList.Pairwise (· ≤ ·) ∧ d'.toList.Perm d.toList := by
+theorem sort_spec (cf : Cfg) (hk : cf.HeapOK) (hbo : cf.BuildOK) (hmin : cf.qsMin ≤ 1) (hg : 0 ≤ cf.shellGap)
+    (hs : 1 ≤ cf.mdShift)
+    (hpiv : ∀ (d : Data) (lo hi : Int), 0 ≤ lo → hi - lo > cf.qsSmall → hi ≤ d.size → PivotOK cf d lo hi)
+    (d : Data) : ∃ d', sort cf d = .ok d' ∧ d'.toList.Pairwise (· ≤ ·) ∧ d'.toList.Perm d.toList := by
   unfold sort
-  obtain ⟨md, hmd⟩ := maxDepth_total d.size
+  obtain ⟨md, hmd⟩ := maxDepth_total cf hs d.size
   rw [hmd]
   simp only
-  obtain ⟨d', hr, hrp, hso⟩ := quickSort_spec hpiv (md + 2) d 0 d.size md (Int.le_refl _) (by omega) (Int.le_refl _) (by omega)
+  obtain ⟨d', hr, hrp, hso⟩ := quickSort_spec cf hk hbo hmin hg hpiv (md + 2) d 0 d.size md (Int.le_refl _) (by omega) (Int.le_refl _) (by omega)
   refine ⟨d', hr, ?_, ?_⟩
   · apply sortedOn_toList
     rw [hrp.1]; exact hso
-  · exact Multiset.coe_eq_coe.mp (quickSort_ms _ _ _ _ _ _ hr)
+  · exact Multiset.coe_eq_coe.mp (quickSort_ms _ _ _ _ _ _ _ hr)
 
 end IntSort
